@@ -9,7 +9,7 @@ import os
 
 UNIT = "n9_bcint_exec"
 TEST_FILTER = "verif_n9_"
-TIMEOUT = 2400
+TIMEOUT = 420   # a normal run takes 30 s; a hang of the real code on a halting case is reported as a failure
 RELEASE = True
 TRUSTED = ["oracle: bc_step as stated in units u5/u6 (re-stated in the native module)",
            "BOUNDED: all bytecode programs of <= 3 instructions over a 30-instruction alphabet (valid branch targets) + loop / if / move skeletons with bodies from the alphabet; 4 start tapes; input stream of 5 bytes; u8 and u32; debug-assertions build"]
